@@ -190,6 +190,47 @@ inst_k!(body_analysed_hash: c27_analysed_hash_0 = (0, 35), c27_analysed_hash_1 =
         c27_analysed_hash_3 = (3, 38), c27_analysed_hash_4 = (4, 39), c27_analysed_hash_5 = (5, 40),
         c27_analysed_hash_6 = (6, 41), c27_analysed_hash_7 = (7, 42), c27_analysed_hash_8 = (8, 43));
 
+// ------------------------------------------------------------------------------------------------ codes that end like the padding
+/// Codes whose tail is indistinguishable from the 33 zero bytes of analysis padding: K symbolic head bytes followed by
+/// N - K concrete zero bytes (N - K = 32, 33, 34: one below, at and above the padding length). Length, byte accessors
+/// and the padded-buffer length must still report all N bytes after (repeated) analysis.
+fn body_analysed_zero_tail<const K: usize, const N: usize>() {
+    let head: [u8; K] = kani::any();
+    let mut code = [0u8; N];
+    let mut i = 0;
+    while i < K {
+        code[i] = head[i];
+        i += 1;
+    }
+    let bc = Bytecode::new_legacy(static_bytes(&code));
+    let an = to_analysed(bc);
+    assert!(matches!(an, Bytecode::LegacyAnalyzed(_)), "to_analysed(LegacyRaw) must build LegacyAnalyzed");
+    assert!(an.len() == N, "zero tail: len() after analysis differs from the input length");
+    assert!(an.original_byte_slice().len() == N, "zero tail: original_byte_slice() after analysis has another length");
+    assert!(same_bytes(an.original_byte_slice(), &code), "zero tail: original_byte_slice() after analysis differs from the input");
+    assert!(an.bytes_slice().len() == N + 33, "zero tail: analysed buffer is not the code plus 33 bytes of padding");
+    let an = to_analysed(an);
+    assert!(an.len() == N, "zero tail: second to_analysed changed len()");
+    kani::cover!(head[0] == 0x5B, "zero tail: JUMPDEST head reachable");
+    kani::cover!(head[0] == 0x7F, "zero tail: PUSH32 head reachable");
+    core::mem::forget(an);
+}
+macro_rules! inst_tail {
+    ($($name:ident = ($k:literal, $n:literal, $unwind:literal)),* $(,)?) => {
+        $(
+            #[kani::proof]
+            #[kani::unwind($unwind)]
+            #[kani::solver(kissat)]
+            fn $name() {
+                body_analysed_zero_tail::<$k, $n>();
+            }
+        )*
+    };
+}
+// unwind = N + 35 (analysis loop over code plus padding; same_bytes over N bytes)
+inst_tail!(c27_zero_tail_k1_z32 = (1, 33, 68), c27_zero_tail_k1_z33 = (1, 34, 69), c27_zero_tail_k1_z34 = (1, 35, 70),
+           c27_zero_tail_k2_z33 = (2, 35, 70));
+
 // ------------------------------------------------------------------------------------------------ new_raw_checked / new_raw
 /// Reference classification (EIP-3540 magic EF00, EIP-7702 magic EF01): what must `new_raw_checked` do with `code`?
 #[derive(PartialEq, Eq, Clone, Copy)]
